@@ -25,7 +25,7 @@ PROPS = {
             'alpha lexer: line offsets are proved to be the running sum of (characters + 1) per line, not the true character index (false for CRLF sources: D9); str::lines is modelled only by: sum of (chars+1) over lines <= chars+1, "" has no lines',
             'alpha lexer: keyword and punctuation tables in the spec restate the language tables (no documented list exists in the repository)'], 'trusted': []},
     'C15': {'units': ['U-LEXD', 'U-PARSE', 'U-HDR', 'U-DIG'], 'assumptions': ['XML dumps (as_xml/print_xml) excluded: format!/Box<dyn Iterator>/&str slicing',
-            'parse() precondition: the token list comes from lex() without errors (ends in two EndOfSource tokens, packed words well formed) - the lexer unit does not yet export this as a postcondition',
+            'lex -> parse interface: lex() ENSURES ltok_shape (two final EndOfSource tokens, parallel well-formed packed words) and <= 2^24 tokens whenever it reports no error (U-LEXD); parse() REQUIRES ltok_ok = ltok_shape && tokens < 2^24 (U-PARSE); both units include the same text spec/ltok_ok_spec.rs; the composition is by matching that text, not one Verus run',
             'parse() precondition: 5 + 5 * tokens <= 2^24 (node ids are 24 bits): for inputs above ~3.3 million tokens U24::new would overflow (debug_assert) - documented size regime, see DESIGN.md section 5 (D10)',
             'unbounded stack: recursion depth of the parser is not bounded by any obligation (D4: 5000 nested parentheses overflow the stack)',
             '.into() conversions from lexer TokenId to parse_node::TokenId: argument < 2^24 not checked per call site (trait impls cannot carry requires); holds because cursor <= number of tokens < 2^24'], 'trusted': []},
